@@ -44,9 +44,10 @@ impl<'a> TryFrom<&'a [u8]> for SnmpV3Message<'a> {
         }
         // Version
         let (tail, v_code) = SnmpInt::from_ber(envelope.0)?;
-        let vc = v_code.into();
-        if vc != SNMP_V3 {
-            return Err(SnmpError::InvalidVersion(vc));
+        // Compare the whole value, not the truncated one
+        let vc: i64 = v_code.into();
+        if vc != SNMP_V3 as i64 {
+            return Err(SnmpError::InvalidVersion(vc as u8));
         }
         //
         // Parse global header
@@ -64,8 +65,8 @@ impl<'a> TryFrom<&'a [u8]> for SnmpV3Message<'a> {
         let flags = flags_data.0[0];
         // security model
         let (_, security_model) = SnmpInt::from_ber(tail)?;
-        let sm: u8 = security_model.into();
-        if sm != USM {
+        let sm: i64 = security_model.into();
+        if sm != USM as i64 {
             return Err(SnmpError::UnknownSecurityModel);
         }
         //
